@@ -114,9 +114,14 @@ namespace Pistache::Http::Experimental
             OnDone onDone;
         };
 
+        // the pending request is installed by the thread that issues it and
+        // completed by the transport's thread
+        std::unique_ptr<RequestEntry> takeRequestEntry();
+
         Fd fd_;
 
         struct sockaddr_in saddr;
+        std::mutex requestEntryLock;
         std::unique_ptr<RequestEntry> requestEntry;
         std::atomic<uint32_t> state_;
         std::atomic<ConnectionState> connectionState_;
